@@ -294,6 +294,8 @@ type YW struct {
 	Halt uint64
 	// ParkStoreCalls puts the ParkStore seam between the Syncer and the Store.
 	ParkStoreCalls bool
+	// Metrics: Store and Syncer are built with their metrics on (configuration knob)
+	Metrics bool
 }
 
 // newYW builds a chain whose head is at height `age` now and that keeps growing
@@ -323,6 +325,7 @@ func (w *YW) configureDisk() {
 	s := w.S
 	w.Flav = core.Pick(s.Tape, "flavour", []string{"plain", "ctx", "snap"})
 	w.ParkStoreCalls = s.Tape.Coin("park-store-calls", 1, 3)
+	w.Metrics = s.Tape.Coin("metrics", 1, 3)
 	if s.Tape.Coin("park-disk", 1, 3) {
 		w.Disk.Park = true
 		drng := s.Sub("disk-latency")
@@ -340,7 +343,11 @@ func (w *YW) configureDisk() {
 func (w *YW) OpenStore(p store.Parameters) error {
 	var err error
 	_, fin := w.S.Do("open-store", opBudget, func() {
-		w.St, err = store.NewStore[*H](w.Disk.Flavour(w.Flav), store.WithParams(p))
+		sopts := []store.Option{store.WithParams(p)}
+		if w.Metrics {
+			sopts = append(sopts, store.WithMetrics())
+		}
+		w.St, err = store.NewStore[*H](w.Disk.Flavour(w.Flav), sopts...)
 		if err == nil {
 			err = w.St.Start(context.Background())
 		}
@@ -358,6 +365,9 @@ func (w *YW) NewSyncer(opts ...hsync.Option) error {
 		// every call the Syncer makes to its Store becomes a pair of park points
 		st = &ParkStore{S: w.S, St: w.St}
 		w.S.Probe("store-calls-are-park-points")
+	}
+	if w.Metrics {
+		opts = append(opts, hsync.WithMetrics())
 	}
 	w.Sy, err = hsync.NewSyncer[*H](w.G, st, w.Sub, opts...)
 	return err
